@@ -294,6 +294,9 @@ class SymStr:
         if ref[0] != "ref":
             return None
         it = I.read(st, ref[1])
+        while it[0] == "ref":          # `&mut &mut I`: the for-loop's own binding of a borrowed iterator
+            ref = it
+            it = I.read(st, ref[1])
         if it[0] == "abs" and it[1] == "siter":
             items, i = it[2], it[3]
             if i < len(items):
@@ -490,6 +493,12 @@ class SymStr:
                 if all(x[0] == "lit" or x[2] in ("int",) for x in p0):
                     return [(OK, mk([("lit", x[1].lower()) if x[0] == "lit" else x for x in p0]), st)]
                 return [(OK, mk(p0), st)]   # atoms: assumed already canonical case
+            if c == "core::str::<impl str>::char_indices" and is_concrete(p0):
+                items, off = [], 0
+                for ch in concrete(p0):
+                    items.append(("tuple", (hirai.mkint(off), ("char", ch))))
+                    off += len(ch.encode("utf-8"))
+                return [(OK, ("abs", "siter", tuple(items), 0), st)]
             if c in ("core::str::<impl str>::len", "alloc::string::String::len"):
                 if is_concrete(p0):
                     return [(OK, hirai.mkint(len(concrete(p0).encode("utf-8"))), st)]
@@ -583,7 +592,8 @@ class SymStr:
                 return [(OK, some(a0[2][a0[3]]) if a0[3] < len(a0[2]) else none(), st)]
         if c in ("core::iter::traits::collect::IntoIterator::into_iter", "core::iter::traits::iterator::Iterator::by_ref") or c.endswith("IntoIterator>::into_iter"):
             if a0 is not None and a0[0] == "abs" and a0[1] == "siter":
-                return [(OK, args[0] if c.endswith("by_ref") else a0, st)]
+                # `&mut I` is an iterator itself: iterating it advances the referenced iterator
+                return [(OK, args[0] if c.endswith("by_ref") or args[0][0] == "ref" else a0, st)]
             if a0 is not None and a0[0] == "abs" and a0[1] == "sset":
                 return [(OK, a0, st)]      # iterating a set: resolved when it is collected
         if (c == "core::iter::traits::iterator::Iterator::collect" or c.endswith("::collect")) and isinstance(n, dict) and n.get("ty") == "alloc::string::String":
@@ -662,10 +672,33 @@ class SymStr:
         if c == "regex::regex::string::Regex::new":
             if p0 is not None and is_concrete(p0):
                 return [(OK, ("enum", OKV, (("abs", "regex", concrete(p0)),)), st)]
+        if c == "core::char::methods::<impl char>::len_utf8" and a0 is not None and a0[0] == "char":
+            return [(OK, hirai.mkint(len(a0[1].encode("utf-8"))), st)]
         if c == "core::hint::must_use":
             return [(OK, args[0], st)]
         import siterlib
         return siterlib.siter_intrinsic(I, c, args, st, n)
+
+    def index(self, I, n, base, idx, st):
+        """text[a..b] on a concrete text with concrete byte offsets"""
+        b = I.deref_val(st, base)
+        i = I.deref_val(st, idx)
+        p = pieces_of(b) if b is not None and b[0] in ("str", "sstr") else None
+        if p is None or not is_concrete(p) or i[0] != "struct" or not i[1].startswith("core::ops::range::Range") or "Inclusive" in i[1]:
+            return None
+        raw = concrete(p).encode("utf-8")
+        d = {k: I.deref_val(st, v) for k, v in i[2]}
+        lo = d["start"] if "start" in d else ("int", 0)
+        hi = d["end"] if "end" in d else ("int", len(raw))
+        if not (lo[0] == "int" and isinstance(lo[1], int) and hi[0] == "int" and isinstance(hi[1], int)):
+            return None
+        sp = n.get("sp") if isinstance(n, dict) else ""
+        if lo[1] > hi[1] or hi[1] > len(raw):
+            return [(PANIC, ("slice index out of range", sp), st)]
+        try:
+            return [(OK, lit(raw[lo[1]:hi[1]].decode("utf-8")), st)]
+        except UnicodeDecodeError:
+            return [(PANIC, ("slice index is not a char boundary", sp), st)]
 
     def sstr_equal(self, a, b):
         if is_concrete(a) and is_concrete(b):
